@@ -26,7 +26,8 @@ def predicate(name):
 
 def matches(kf, trace, viol):
     sig = kf.get("signature") or {}
-    if sig.get("monitor") and sig["monitor"] != viol.get("monitor"):
+    mons = sig.get("monitor")
+    if mons and viol.get("monitor") not in (mons if isinstance(mons, list) else [mons]):
         return False
     if sig.get("class") and viol.get("class") not in (
             sig["class"] if isinstance(sig["class"], list) else [sig["class"]]):
@@ -171,3 +172,82 @@ def reset_multi_commit(trace, viol):
     rs = _index_of(trace, multi)
     st = viol.get("step")
     return rs is not None and isinstance(st, int) and st > rs
+
+
+def _pending_across_commit(trace, path, upto):
+    """index of an AI edit of `path` that is followed by a commit op before `upto` (so its lines
+    can be pending in INITIAL), or None"""
+    ops = _ops(trace)
+    for i, o in enumerate(ops[:upto]):
+        if o.get("op") == "edit" and o.get("who") != "human" and path in (o.get("files") or {}):
+            if _index_of(trace, lambda x: _is_git(x, "commit"), i, upto) is not None:
+                return i
+    return None
+
+
+def _untracked_at(trace, path, upto):
+    """the file was created by an edit op and never added before op `upto`"""
+    if path in ((trace.get("init") or {}).get("files") or {}):
+        return False
+    for o in _ops(trace)[:upto]:
+        a = o.get("argv") or []
+        if o.get("op") == "git" and a[:1] == ["add"] and ("-A" in a or path in a or "." in a):
+            return False
+        if o.get("op") == "stage" and o.get("path") == path:
+            return False
+    return True
+
+
+@predicate("initial_positional")
+def initial_positional(trace, viol):
+    """AI lines pending across a (partial) commit; then a human edit of that file that is not
+    preceded by a checkpoint: INITIAL is applied by line number to the new content"""
+    path = (viol.get("detail") or {}).get("path")
+    st = viol.get("step")
+    if not path or not isinstance(st, int):
+        return False
+    ops = _ops(trace)
+    for i, o in enumerate(ops[:st]):
+        if o.get("op") == "edit" and o.get("who") == "human" and path in (o.get("files") or {}) \
+                and _pending_across_commit(trace, path, i) is not None:
+            if not o.get("pre_ckpt") or _untracked_at(trace, path, i):
+                return True
+    return False
+
+
+@predicate("initial_outlives_discard")
+def initial_outlives_discard(trace, viol):
+    """AI lines pending across a (partial) commit; then restore / stash push / checkout -- . discards
+    them from the work tree but INITIAL keeps their line numbers"""
+    path = (viol.get("detail") or {}).get("path")
+    st = viol.get("step")
+    if not path or not isinstance(st, int):
+        return False
+    ops = _ops(trace)
+    for i, o in enumerate(ops[:st]):
+        a = o.get("argv") or []
+        if o.get("op") == "git" and (a[:1] == ["restore"] or a[:2] == ["stash", "push"] or a[:1] == ["stash"] and len(a) == 1
+                                     or (a[:1] == ["checkout"] and a[-1:] == ["."])):
+            if _pending_across_commit(trace, path, i) is not None:
+                return True
+    return False
+
+
+@predicate("partial_unstaged_nonpure_hunk")
+def partial_unstaged_nonpure_hunk(trace, viol):
+    """a hunk-level partial commit that leaves a replacing/deleting hunk unstaged in the same file"""
+    from .hist import hunks_between
+    path = (viol.get("detail") or {}).get("path")
+    st = viol.get("step")
+    if not path or not isinstance(st, int):
+        return False
+    ops = _ops(trace)
+    content = None
+    for i, o in enumerate(ops[:st + 1]):
+        if o.get("op") == "edit" and path in (o.get("files") or {}):
+            content = o["files"][path]
+        if o.get("op") == "stage" and o.get("path") == path and content is not None:
+            _a, _b, hunks = hunks_between(o["content"], content)
+            if any(h[0] != h[1] for h in hunks):
+                return True
+    return False
